@@ -333,14 +333,14 @@ def parse_instr(line):
         t = parse_type(p); v = parse_value(p, t); p.expect(','); pt = parse_type(p); a = parse_value(p, pt)
         return {'op': op, 'ty': t, 'val': v, 'ptr': a}
     if op == 'getelementptr':
-        p.accept('inbounds')
+        inb = bool(p.accept('inbounds'))
         bt = parse_type(p); p.expect(',')
         pt = parse_type(p); base = parse_value(p, pt)
         idx = []
         while p.accept(','):
             if p.peek()[0] == 'md': break
             t = parse_type(p); idx.append((t, parse_value(p, t)))
-        return {'op': op, 'dst': dst, 'bty': bt, 'base': base, 'idx': idx}
+        return {'op': op, 'dst': dst, 'bty': bt, 'base': base, 'idx': idx, 'inbounds': inb}
     if op == 'alloca':
         p.accept('inalloca')
         t = parse_type(p); n = ('int', 1)
